@@ -298,6 +298,13 @@ pub fn check_messages(prop: &str, scenario: &Scenario, model: &Model, res: &Exec
         if cross_file(&expected, path) {
             stats.cross_file_locations += 1;
         }
+        // C09 also by construction: the range of a definition, read against the text of the
+        // file it names, is the very identifier the request was made on
+        if ranges && *kind == ReqKind::Definition && !r["result"].is_null() {
+            if let Some(msg) = definition_text_mismatch(model, state, path, *offset, &r["result"]) {
+                v.push(Violation::new(prop, "definition-text-mismatch", format!("op {i} {path}@{offset}: {msg}")));
+            }
+        }
         if got != expected {
             v.push(Violation::new(
                 prop,
@@ -342,6 +349,52 @@ pub fn check_messages(prop: &str, scenario: &Scenario, model: &Model, res: &Exec
         }
     }
     v
+}
+
+fn ident_at(text: &str, offset: usize) -> Option<&str> {
+    let b = text.as_bytes();
+    let is_id = |c: u8| c.is_ascii_alphanumeric() || c == b'_';
+    if offset > b.len() {
+        return None;
+    }
+    let mut s = offset;
+    while s > 0 && is_id(b[s - 1]) {
+        s -= 1;
+    }
+    let mut e = offset;
+    while e < b.len() && is_id(b[e]) {
+        e += 1;
+    }
+    if s == e {
+        None
+    } else {
+        Some(&text[s..e])
+    }
+}
+
+fn definition_text_mismatch(model: &Model, state: usize, path: &str, offset: u32, result: &Value) -> Option<String> {
+    let st = model.states.get(state)?;
+    let texts = st.overlay();
+    let src = texts.get(&PathBuf::from(path))?;
+    let wanted = ident_at(src, offset as usize)?;
+    let loc = if result.is_array() { result.get(0)? } else { result };
+    let target_path = crate::exec::path_of_uri(loc["uri"].as_str()?);
+    let target = texts.get(&PathBuf::from(&target_path))?;
+    let map = crate::refmap::RefMap::new(target);
+    let r = &loc["range"];
+    let a = map.offset_of(r["start"]["line"].as_u64()? as u32, r["start"]["character"].as_u64()? as u32);
+    let b = map.offset_of(r["end"]["line"].as_u64()? as u32, r["end"]["character"].as_u64()? as u32);
+    match (a, b) {
+        (Some(a), Some(b)) if a <= b && target.is_char_boundary(a) && target.is_char_boundary(b) => {
+            let got = &target[a..b];
+            if got == wanted {
+                None
+            } else {
+                Some(format!("the range sent denotes {got:?} in {target_path}, the identifier under the cursor is {wanted:?}"))
+            }
+        }
+        _ => Some(format!("the range sent does not exist in the text of {target_path}")),
+    }
 }
 
 fn cross_file(expected: &Option<Vec<String>>, path: &str) -> bool {
